@@ -68,19 +68,21 @@ PP == INSTANCE PipelineProps
 IsClient(f) == PP!IsClientCode(f)
 Status(fam, f) == PP!Status(fam \in Soap, ClsOf(f), f)
 
-NoInj == [call |-> "ok", fn |-> "ok", ret |-> "ok", ser |-> "ok", at |-> "app"]
+NoInj == [call |-> "ok", fn |-> "ok", ret |-> "ok", ser |-> "ok", at |-> "app", res |-> "plain"]
 
 InjSet ==
-  { i \in [call : Outcome, fn : Outcome, ret : Outcome, ser : {"ok", "exc"}, at : Where] :
+  { i \in [call : Outcome, fn : Outcome, ret : Outcome, ser : {"ok", "exc"}, at : Where,
+           res : {"plain", "gen"}] :       \* res: the function returns a value / is a generator
       \* a single failure; `at` only matters for the two listener injections
       /\ Cardinality({k \in {"call", "fn", "ret", "ser"} : i[k] # "ok"}) <= 1
       /\ ((i.call = "ok" /\ i.ret = "ok") => i.at = "app") }
 
+EventInj == {i \in InjSet : i.res = "plain"}
 EventScenarios ==
   { s \in [cfg : [tr : Transports, family : Families, chunked : {TRUE},
                   maxlen : {8}, block : {4}],
-           req : [class : ReqClass, len : {3}, declared : {3}],
-           inj : InjSet, abort : {NoAbort}] :
+           req : [kind : {"rpc"}, class : ReqClass, len : {3}, declared : {3}],
+           inj : EventInj, abort : {NoAbort}] :
       /\ (s.req.class # "valid" => s.inj = NoInj)
       /\ (s.inj.ser # "ok" => (s.cfg.family \in Eager /\ s.cfg.tr = "wsgi"))
       /\ (s.req.class = "badenvelope" => s.cfg.family \in Soap)
@@ -88,15 +90,23 @@ EventScenarios ==
       /\ (s.cfg.family = "http" => s.cfg.tr = "wsgi") }
 
 \* body length x declared CONTENT_LENGTH x limit x block x chunked x outcome x abort
-WsgiScenarios ==
+WsgiInj == {i \in InjSet : i.call = "ok" /\ i.ret = "ok" /\ i.ser = "ok"
+                             /\ i.fn \in {"ok", "fault_client", "fault_413", "exc"}}
+WsgiRpcOf(ML, BL, LEN, DECL) ==
   { s \in [cfg : [tr : {"wsgi"}, family : {"json", "soap11"}, chunked : BOOLEAN,
-                  maxlen : {2, 4}, block : {1, 3}],
-           req : [class : {"valid", "unknown", "badargs"}, len : 1..5,
-                  declared : {Absent, Empty} \cup 0..6],
-           inj : {i \in InjSet : i.call = "ok" /\ i.ret = "ok" /\ i.ser = "ok"
-                                  /\ i.fn \in {"ok", "fault_client", "fault_413", "exc"}},
-           abort : {NoAbort, 0, 1}] :
+                  maxlen : ML, block : BL],
+           req : [kind : {"rpc"}, class : {"valid", "unknown", "badargs"}, len : LEN,
+                  declared : {Absent, Empty} \cup DECL],
+           inj : WsgiInj, abort : {NoAbort, 0, 1}] :
       /\ (s.req.class # "valid" => s.inj = NoInj) }
+WsgiRpcScenarios == IF ScenSet = "wsgiq" THEN WsgiRpcOf({2}, {1, 3}, 1..3, 0..4)
+                                         ELSE WsgiRpcOf({2, 4}, {1, 3}, 1..5, 0..6)
+\* a ?wsdl fetch is a GET: no body, no injection; "wsdlerr": building the document fails
+WsgiWsdlScenarios ==
+  [cfg : [tr : {"wsgi"}, family : {"soap11"}, chunked : BOOLEAN, maxlen : {2, 4}, block : {1}],
+   req : [kind : {"wsdl", "wsdlerr"}, class : {"valid"}, len : {1}, declared : {Absent}],
+   inj : {NoInj}, abort : {NoAbort, 0, 1}]
+WsgiScenarios == WsgiRpcScenarios \cup WsgiWsdlScenarios
 
 Scenarios == IF ScenSet = "events" THEN EventScenarios ELSE WsgiScenarios
 
@@ -132,25 +142,35 @@ Truncated == ReadGoal < req.len
 \* -------------------------------------------------------------------- actions
 CtxCreate ==
   /\ pc = "new" /\ Emit("app", "method_context_created")
-  /\ pc' = IF cfg.tr = "wsgi" THEN "wsgicall" ELSE "read"
+  /\ pc' = IF req.kind # "rpc" THEN "wsdl" ELSE IF cfg.tr = "wsgi" THEN "wsgicall" ELSE "read"
   /\ UNCHANGED <<scen, fnRuns, fnOk, inErr, outErr, bound, sr, status, clen, handed, chunks, closed, wclosed, nread>>
 
 WsgiCall ==
   /\ pc = "wsgicall" /\ Emit("wsgi", "wsgi_call") /\ pc' = "read"
   /\ UNCHANGED <<scen, fnRuns, fnOk, inErr, outErr, bound, sr, status, clen, handed, chunks, closed, wclosed, nread>>
 
+\* handle_wsdl_request: the cached document (or the 500 of a failed build) is
+\* answered with a Content-Length; the context is closed after the body
+WsdlRespond ==
+  /\ pc = "wsdl"
+  /\ status' = (IF req.kind = "wsdl" THEN 200 ELSE 500)
+  /\ ev' = ev \o << <<"wsgi", IF req.kind = "wsdl" THEN "wsdl" ELSE "wsdl_exception">>,
+                     <<"sr", status'>> >>
+  /\ sr' = sr + 1 /\ clen' = (IF req.kind = "wsdl" THEN 1 ELSE Absent) /\ pc' = "handover"
+  /\ UNCHANGED <<scen, fnRuns, fnOk, inErr, outErr, bound, handed, chunks, closed, wclosed, nread>>
+
 \* create_in_document consumes ctx.in_string; for WSGI that is the reader loop
 ReadBlock ==
   /\ pc = "read" /\ cfg.tr = "wsgi" /\ ~TooLong /\ nread < ReadGoal
   /\ LET n == MinN(cfg.block, Declared - nread) IN
        /\ nread' = MinN(nread + n, req.len)
-       /\ IF ScenSet = "wsgi" THEN Emit("read", n) ELSE UNCHANGED ev   \* reads are logged in unit-sized scenarios only
+       /\ IF ScenSet # "events" THEN Emit("read", n) ELSE UNCHANGED ev   \* reads are logged in unit-sized scenarios only
   /\ UNCHANGED <<scen, pc, fnRuns, fnOk, inErr, outErr, bound, sr, status, clen, handed, chunks, closed, wclosed>>
 
 \* the reader asks once more when the stream ended before the declared length
 ReadEof ==
   /\ pc = "read" /\ cfg.tr = "wsgi" /\ ~TooLong /\ nread = ReadGoal /\ nread < Declared
-  /\ (IF ScenSet = "wsgi" THEN Emit("read", MinN(cfg.block, Declared - nread)) ELSE UNCHANGED ev)
+  /\ (IF ScenSet # "events" THEN Emit("read", MinN(cfg.block, Declared - nread)) ELSE UNCHANGED ev)
   /\ pc' = "parse"
   /\ UNCHANGED <<scen, fnRuns, fnOk, inErr, outErr, bound, sr, status, clen, handed, chunks, closed, wclosed, nread>>
 
@@ -199,8 +219,20 @@ EvMethodCall ==
        ELSE /\ FireBroken("method_call") /\ outErr' = FaultOf(inj.call) /\ pc' = "excobj"
   /\ UNCHANGED <<scen, fnRuns, fnOk, inErr, bound, sr, status, clen, handed, chunks, closed, wclosed, nread>>
 
+\* a generator function: calling it runs no user code yet
+CallGenFn ==
+  /\ pc = "fn" /\ inj.res = "gen" /\ pc' = "retobj"
+  /\ UNCHANGED <<scen, ev, fnRuns, fnOk, inErr, outErr, bound, sr, status, clen, handed, chunks, closed, wclosed, nread>>
+
+\* handle_rpc advances a generator result to its first yield before serialising
+GenFirst ==
+  /\ pc = "genfirst" /\ fnRuns' = fnRuns + 1 /\ Emit("fn", "call")
+  /\ IF inj.fn = "ok" THEN pc' = "serialize" /\ fnOk' = TRUE /\ UNCHANGED outErr
+                      ELSE pc' = "excobj" /\ outErr' = FaultOf(inj.fn) /\ UNCHANGED fnOk
+  /\ UNCHANGED <<scen, inErr, bound, sr, status, clen, handed, chunks, closed, wclosed, nread>>
+
 CallFn ==
-  /\ pc = "fn" /\ fnRuns' = fnRuns + 1 /\ Emit("fn", "call")
+  /\ pc = "fn" /\ inj.res = "plain" /\ fnRuns' = fnRuns + 1 /\ Emit("fn", "call")
   /\ IF inj.fn = "ok" THEN pc' = "retobj" /\ fnOk' = TRUE /\ UNCHANGED outErr
                       ELSE pc' = "excobj" /\ outErr' = FaultOf(inj.fn) /\ UNCHANGED fnOk
   /\ UNCHANGED <<scen, inErr, bound, sr, status, clen, handed, chunks, closed, wclosed, nread>>
@@ -208,7 +240,8 @@ CallFn ==
 EvReturnObject ==
   /\ pc = "retobj"
   /\ IF inj.ret = "ok"
-       THEN /\ Fire("method_return_object") /\ pc' = "serialize" /\ UNCHANGED outErr
+       THEN /\ Fire("method_return_object") /\ UNCHANGED outErr
+            /\ pc' = (IF inj.res = "gen" THEN "genfirst" ELSE "serialize")
        ELSE /\ FireBroken("method_return_object") /\ outErr' = FaultOf(inj.ret) /\ pc' = "excobj"
   /\ UNCHANGED <<scen, fnRuns, fnOk, inErr, bound, sr, status, clen, handed, chunks, closed, wclosed, nread>>
 
@@ -291,10 +324,10 @@ BodyEnd ==
 
 Finalize ==
   /\ pc = "finalize"
-  /\ ev' = ev \o (IF cfg.tr = "wsgi"
+  /\ ev' = ev \o (IF cfg.tr = "wsgi" /\ req.kind = "rpc"
                     THEN << <<"app", "method_context_closed">>, <<"wsgi", "wsgi_close">> >>
                     ELSE << <<"app", "method_context_closed">> >>)
-  /\ closed' = closed + 1 /\ wclosed' = wclosed + (IF cfg.tr = "wsgi" THEN 1 ELSE 0)
+  /\ closed' = closed + 1 /\ wclosed' = wclosed + (IF cfg.tr = "wsgi" /\ req.kind = "rpc" THEN 1 ELSE 0)
   /\ pc' = IF cfg.tr = "wsgi" THEN "iterclose" ELSE "done"
   /\ UNCHANGED <<scen, fnRuns, fnOk, inErr, outErr, bound, sr, status, clen, handed, chunks, nread>>
 
@@ -302,7 +335,7 @@ IterClose ==
   /\ pc = "iterclose" /\ Emit("io", "iterclose") /\ pc' = "done"
   /\ UNCHANGED <<scen, fnRuns, fnOk, inErr, outErr, bound, sr, status, clen, handed, chunks, closed, wclosed, nread>>
 
-Next == \/ CtxCreate \/ WsgiCall \/ ReadBlock \/ ReadEof \/ ReadDone \/ RefuseTooLong
+Next == \/ CtxCreate \/ WsgiCall \/ WsdlRespond \/ CallGenFn \/ GenFirst \/ ReadBlock \/ ReadEof \/ ReadDone \/ RefuseTooLong
         \/ GenContextsOk \/ GenContextsFail \/ DeserOk \/ DeserFail
         \/ EvMethodCall \/ CallFn \/ EvReturnObject \/ EvExceptionObject
         \/ SerializeOk \/ SerializeFail \/ EvReturnDocString \/ HandleError
@@ -316,13 +349,13 @@ Spec == Init /\ [][Next]_vars /\ WF_vars(Next)
 \* by what is known about the call), so that the SAME definitions are evaluated
 \* by TLC on the model here (M1) and on traces recorded from the real code (M3).
 Done == pc = "done"
-K == [tr |-> cfg.tr, soap |-> cfg.family \in Soap, done |-> Done,
+K == [tr |-> cfg.tr, rpc |-> req.kind = "rpc", soap |-> cfg.family \in Soap, done |-> Done,
       fault |-> outErr # NoFault, fnOk |-> fnOk, fnRuns |-> fnRuns,
       infault |-> inErr # NoFault,
-      malformed |-> (req.class # "valid" \/ (Truncated /\ cfg.family # "http")),
+      malformed |-> (req.kind = "rpc" /\ (req.class # "valid" \/ (Truncated /\ cfg.family # "http"))),
       code |-> outErr, cls |-> ClsOf(outErr),
       status |-> status, statusKnown |-> inj.ser = "ok",
-      maxlen |-> cfg.maxlen, declared |-> Declared, toolong |-> TooLong,
+      maxlen |-> cfg.maxlen, declared |-> Declared, toolong |-> (TooLong /\ req.kind = "rpc"),
       nread |-> nread, aborted |-> abort # NoAbort]
 
 CreatedFirst   == PP!CreatedFirst(ev)
